@@ -246,7 +246,7 @@ def _run_hypothesis(sub, st, job):
     tier = job["tier"]
     n = sub.n[tier]
     if job.get("opt"):
-        n = max(3, min(n // 10, 40 if tier == "quick" else 400))
+        n = max(1, min(n // 10, 40 if tier == "quick" else 400))
     strategy = sub.gen(tier)
     budget = sub.shrink_budget[tier]
     the_seed = int(job["seed"]) * 1000 + job["shard"]
